@@ -518,7 +518,7 @@ fn main() {
             }
         }
         rep.count_n("deterministic_scenarios(4 column types x {re-promote, descending+first/last clear})", 8);
-        let (n_big, n_small) = if args.thorough() { (80, 8_000) } else { (18, 2_000) };
+        let (n_big, n_small) = if args.thorough() { (160, 12_000) } else { (18, 2_000) };
         for _ in 0..n_big {
             let mut r = rng.fork();
             cases.push(big_case(&mut r, args.thorough()));
